@@ -37,6 +37,9 @@ var seedVariants = []solverSpec{
 
 // buildQuery renders the SMT-LIB text deciding one obligation.
 func buildQuery(c *Ctx, o *Obligation, forCVC bool) string {
+	if o.RawQuery != "" {
+		return o.RawQuery
+	}
 	var b strings.Builder
 	if forCVC {
 		b.WriteString("(set-option :produce-models true)\n")
